@@ -621,9 +621,11 @@ void Ports::dispatch(const char *m, rtosc::RtData &d, bool base_dispatch) const
 
             //Compute the hash
             int t = len;
+            //a character outside the table cannot be part of any name
             for(auto p:impl->pos)
-                if(p < (int)len)
-                    t += impl->assoc[m[p]];
+                if(p < (int)len &&
+                        (unsigned char)m[p] < impl->assoc.size())
+                    t += impl->assoc[(unsigned char)m[p]];
             if(t >= (int)impl->remap.size() && !default_handler)
                 return;
             else if(t >= (int)impl->remap.size() && default_handler) {
